@@ -10,7 +10,7 @@
 (***************************************************************************)
 EXTENDS MCBase
 
-CONSTANTS MaxTags, DstExtra, MaxD, LCap, MaxN, ElfSizes, ElfRots
+CONSTANTS MaxTags, DstExtra, MaxD, LCap, MaxN, ElfSizes, ElfRots, MaxStr, StrKinds
 
 PadByte == 238          \* 0xEE in alignment padding
 NbrByte == 221          \* 0xDD payload of the neighbouring tag
@@ -127,11 +127,11 @@ DstCase(p) ==
 
 \* ---- Fb corpus: all framebuffer type bytes x colour-info lengths ----------------------------------
 FbParams == { [tb |-> tb, blen |-> bl, nc |-> nc] : tb \in 0..255, bl \in {0, 1, 2, 5, 6, 8, 11}, nc \in {0} }
-            \cup { [tb |-> 0, blen |-> bl, nc |-> nc] : bl \in {2, 5, 8, 11, 14}, nc \in {0, 1, 2, 3, 4, 255, 65535} }
+            \cup { [tb |-> tb, blen |-> bl, nc |-> nc] : tb \in {0, 1, 2}, bl \in 0..17, nc \in 0..6 \cup {255, 65535} }
 FbTag(p) ==
   LET size == 32 + p.blen
       t == RawTag(8, size, 0) IN
-  Override(Override(t, 29, <<p.tb>>), 32, SubSeq(U16Bytes(p.nc) \o <<1, 2, 3, 4, 5, 6, 7, 8, 9, 10, 11, 12>>, 1, p.blen))
+  Override(Override(t, 29, <<p.tb>>), 32, SubSeq(U16Bytes(p.nc) \o [i \in 1..16 |-> i], 1, p.blen))
 FbCase(p) ==
   [mem |-> InfoImage(<<FbTag(p), Neighbour>>), al |-> 0,
    calls |-> <<[op |-> "load"], [op |-> "get", kind |-> "framebuffer"],
@@ -187,6 +187,22 @@ ElfCase(p) ==
              \o <<[op |-> "elf_sections_deprecated", it |-> 1], [op |-> "next", it |-> 1, names |-> FALSE],
                   [op |-> "dbg", what |-> "elf"]>>,
    desc |-> [area |-> "elf"] @@ p]
+
+\* ---- Str corpus (C17): all strings over a small alphabet, every cut of the declared size -----------------------
+StrAlphabet == {0, 97, 195, 169, 226, 130, 172, 240, 128, 255}     \* NUL, 'a', pieces of 2/3/4-byte sequences, invalid
+RECURSIVE StrsUpTo(_)
+StrsUpTo(n) == IF n = 0 THEN {<<>>} ELSE {<<>>} \cup { <<x>> \o r : x \in StrAlphabet, r \in StrsUpTo(n - 1) }
+StrParams == UNION { { [kind |-> k, s |-> s, m |-> m] : m \in 0..Len(s) } : k \in StrKinds, s \in StrsUpTo(MaxStr) }
+\* the tag declares base + m bytes; the rest of s lies in the padding / runs into the following bytes
+StrTag(p) ==
+  LET K == InfoKind(p.kind)
+      fixed == IF p.kind = "module" THEN <<1, 0, 0, 0, 2, 0, 0, 0>> ELSE <<>> IN
+  Pad8(U32Bytes(K.id) \o U32Bytes(K.base + p.m) \o fixed \o p.s)
+StrCase(p) ==
+  LET body == StrTag(p) \o Pad8(Neighbour)  T == 8 + Len(body) + 8 IN
+  [mem |-> U32Bytes(T) \o <<0, 0, 0, 0>> \o body \o EndTagBytes, al |-> 0,
+   calls |-> <<[op |-> "load"], [op |-> "str", kind |-> p.kind], [op |-> "get", kind |-> p.kind]>>,
+   desc |-> [area |-> "str"] @@ p]
 
 \* ---- table sanity (evaluated once by TLC) -------------------------------------------------------------
 ASSUME \A n \in InfoKindNames : FieldsWellFormed(InfoKind(n))
